@@ -67,9 +67,16 @@ func (pg *PERIOGroup) newTicker(wg *sync.WaitGroup, evtCh chan Event) error {
 				logger.PerioLog.Debugf("ticker[%v] timeout", period)
 				// If the UPF had terminating, the evtCh would be nil
 				if evtCh != nil {
-					evtCh <- Event{
+					select {
+					case evtCh <- Event{
 						eType:  TYPE_PERIO_TIMEOUT,
 						period: period,
+					}:
+					case <-pg.stopCh:
+						// the event queue is full and the server, which is the one
+						// draining it, is waiting for this goroutine in stopTicker
+						logger.PerioLog.Infof("ticker[%v] Stopped", period)
+						return
 					}
 				}
 			case <-pg.stopCh:
